@@ -86,6 +86,7 @@ MOUNTS = [
     ("vecdb", "base/header/mod.rs", "verif_header", "kani/vecdb/header.rs"),
     ("vecdb", "variants/eager/mod.rs", "verif_eager", "kani/vecdb/eager.rs"),
     ("vecdb", "variants/raw/inner/read_write/mod.rs", "verif_raw", "kani/vecdb/raw_rw.rs"),
+    ("vecdb", "variants/compressed/inner/pages.rs", "verif_pages", "kani/vecdb/pages.rs"),
 ]
 
 FEATURES_VECDB = ["derive", "zerocopy"]
